@@ -28,6 +28,23 @@ CLAIMED = {
          "Store part: populations with mixed routes/targets/states/timestamps including ties; id lists and filters with absent/contradictory criteria, limits 0/1/>1000, before-cursors on tie timestamps; selection, counts, preview and the untouched remainder must equal the reference.",
          "store-level part (admin HTTP / MCP parsing comes with the W-sys world); trusted: sim/model.go"),
 }
+CLAIMED.update({
+ "C01": ("fault_enumeration", "deterministic simulation: SQLite store on a simulated disk (shim VFS), crashes and disk faults placed at the k-th disk operation, recovery oracle vs reference model with in-doubt forks",
+         "Seeded enqueue/batch/dequeue/lease/checkpoint histories on the real SQLiteStore over a shim VFS that models durability (content as of last fsync + unsynced write list). Kill and power-loss crashes (seeded subset of unsynced writes, torn at 512 B) and EIO/ENOSPC/short writes are injected at arbitrary disk operations inside operations. After each restart: the store opens, integrity_check is ok, counters equal rows, the listing equals the model where acknowledged operations are certain and the one in flight is in doubt (all or nothing), and with faults off every unsettled message is offered again.",
+         "store-level (the ingress 202 / publish 200 ordering part joins when the W-sys crash world is registered); create/delete/truncate are modelled as durable at once; trusted: sim/model.go, the VFS shim (sim/simdisk.go)"),
+ "C08": ("exploration", "deterministic simulation: generated configs and mutated signed requests through the real ingress wiring vs independent acceptance predicate",
+         "Routes with basic / HMAC (inline and rotating secret_ref versions, custom header names, tolerances) / forward auth built by the real startServers/loadAuth wiring; valid requests and systematic mutations; forward-auth service behaviours injected by the simulated network (2xx, 401/403, other statuses, refused, reset, hang). Oracle: independent predicate (sim/sysref.go) -> admissible status set; anything enqueued was authenticated; every rejection leaves the listing untouched.",
+         "input sampling through the real wiring under a simulated clock/network; trusted: sim/sysref.go"),
+ "C09": ("exploration", "deterministic simulation: replay histories at tolerance-window edges, with reloads, vs at-most-once oracle",
+         "HMAC routes with a small nonce pool; captured requests are resent byte for byte at arrival times at and around ts+-tolerance (simulated clock on whole-second boundaries so that now == ts+tol is reached), after invalid requests carrying the nonce, and after configuration reloads of several kinds. Oracle: per (route, nonce, signed timestamp) at most one 202 during the life of the node.",
+         "a node restart ends the life (replays across restarts are not counted); one open known finding (reload that raises the tolerance after the entry was purged)"),
+ "C10": ("exploration", "deterministic simulation: generated route tables x generated requests through the real wiring vs independent resolver",
+         "Generated configurations (1-5 routes in all three channel types, overlapping paths, match blocks) and requests (dot segments, trailing slashes, host case/port/trailing dot, v4/v6/v4-mapped remotes), with reloads in between; the independent resolver written from docs/configuration.md decides route / 404 / 405+Allow; enqueued route and targets must equal the resolved route's and nothing else may change.",
+         "apart from the reload instant there is no schedule or fault in this property: the deciding ingredient is seeded sampling of configs x requests against an independent reference, executed through the real startServers wiring"),
+})
+CLAIMED["C12"] = (CLAIMED["C12"][0], CLAIMED["C12"][1] + "; ingress part: 413/429/503 through the real handler vs window characterisation of the token bucket",
+                  CLAIMED["C12"][2] + " Ingress part: bodies and header sets around max_body/max_headers (413); arrival-time sequences at route-level and global limiters checked against the exact window characterisation (admitted iff count <= burst + rps x window for every window; windows cut at reloads); queue_limits through ingress incl. partial fan-out.",
+                  "histories lifted above max_depth by operator requeue are excluded as the property says; one open known finding (memory eviction order after id reuse)")
 NA = {
  "C19": "config Parse/Format/Compile are pure functions of the text: no schedule, clock, I/O or fault for a simulation to decide (DESIGN.md §5)",
 }
